@@ -31,6 +31,7 @@ type pgBlock struct {
 	Bi      string `json:"bi"`
 	Orphans int    `json:"orphans"`
 	Widows  int    `json:"widows"`
+	Pg      int    `json:"pg"` // 1: on the page named "n"
 }
 
 type pgPage struct {
@@ -100,6 +101,7 @@ func c12HTML(s *pgScn, variant int) string {
 	}
 	// two rules for the same margin box: the one with the more specific page selector wins although it comes first
 	b.WriteString(`@page :first{@top-right{content:"F";font-family:weasyprint;font-size:8px;line-height:10px}}@page{@top-right{content:"N";font-family:weasyprint;font-size:8px;line-height:10px}}`)
+	b.WriteString(`@page n{@bottom-left{content:"named";font-family:weasyprint;font-size:8px;line-height:10px}}@page m{@bottom-left{content:"m";font-family:weasyprint;font-size:8px;line-height:10px}}`)
 	b.WriteString(`@page :left{margin-left:20px}@page :right{margin-left:30px}@page :blank{@top-center{content:"blank";font-family:weasyprint;font-size:8px;line-height:10px}}`)
 	b.WriteString(`html,body,div,section,article{display:block;margin:0;padding:0}p{display:block;margin:0;font-family:weasyprint;font-size:8px;line-height:10px}</style></head><body>`)
 	n := 0
@@ -110,7 +112,8 @@ func c12HTML(s *pgScn, variant int) string {
 		b.WriteString("<section><article>")
 	}
 	for k, blk := range s.Doc {
-		fmt.Fprintf(&b, `<p style="%s;%s;%s;orphans:%d;widows:%d">`, c12Break("before", blk.Bb, variant+k), c12Break("after", blk.Ba, variant/2+k), c12Break("inside", blk.Bi, variant+k), blk.Orphans, blk.Widows)
+		named := [...]string{"", ";page:n", ";page:m"}[blk.Pg%3]
+		fmt.Fprintf(&b, `<p style="%s;%s;%s;orphans:%d;widows:%d%s">`, c12Break("before", blk.Bb, variant+k), c12Break("after", blk.Ba, variant/2+k), c12Break("inside", blk.Bi, variant+k), blk.Orphans, blk.Widows, named)
 		for j := 0; j < blk.Lines; j++ {
 			if j > 0 {
 				b.WriteString("<br>")
@@ -302,6 +305,39 @@ func c12Main(args []string) int {
 			wantMargin := []string{fmt.Sprintf("%d/%d", i+1, len(obs)), map[bool]string{true: "F", false: "N"}[i == 0]}
 			if o.Blank {
 				wantMargin = append([]string{"blank"}, wantMargin...)
+			}
+			// the name of the page: that of the paragraph its first line belongs to; when that paragraph has page: auto the
+			// page keeps the name it inherited, which is only asserted when no paragraph so far named a page
+			if !o.Blank && len(o.Lines) > 0 && o.Lines[0] >= 1 {
+				ln, acc, anyNamed := o.Lines[0], 0, false
+				for _, blk := range s.Doc {
+					acc += blk.Lines
+					if blk.Pg != 0 {
+						anyNamed = true
+					}
+					if ln <= acc {
+						switch {
+						case blk.Pg == 1:
+							wantMargin = append(wantMargin, "named")
+						case blk.Pg == 2:
+							wantMargin = append(wantMargin, "m")
+						case anyNamed:
+							// (auto after a named paragraph: left open) accept whatever name the page has
+							for _, t := range o.margin {
+								if t == "named" || t == "m" {
+									wantMargin = append(wantMargin, t)
+								}
+							}
+						}
+						break
+					}
+				}
+			} else if o.Blank {
+				for _, t := range o.margin {
+					if t == "named" || t == "m" {
+						wantMargin = append(wantMargin, t) // (the name of an inserted blank page is left open)
+					}
+				}
 			}
 			gm := append([]string(nil), o.margin...)
 			sort.Strings(gm)
